@@ -73,6 +73,43 @@ class MapOf(Spec):
         self.cls, self.fields = cls, fields
 
 
+class Region(Spec):
+    """A heap region: ANY number n >= 1 of objects of class `cls` (symbolic n, no bound), identified by the keys 0 .. n-1.
+    Fields: scalar specs, Link() (optional reference to an object of the same region) or Facade(cls) (an abstract helper
+    object bound to the element).  Stored as a struct of arrays; two references with equal keys are the same object."""
+
+    def __init__(self, name, cls, depth=None, **fields):
+        self.name, self.cls, self.fields = name, cls, fields
+        self.depth = depth      # name of the ghost Int field holding the distance to the root (for generated native samples)
+
+
+class Link(Spec):
+    """Field of a Region object: None or another object of the same region."""
+
+
+class Facade(Spec):
+    """Field of a Region object: an object of class `cls` (an abstract stand-in from spec.ext) whose attribute `back`
+    refers to the region object it belongs to."""
+
+    def __init__(self, cls, back="g_owner"):
+        self.cls, self.back = cls, back
+
+
+class OpaqueField(Spec):
+    """Field of a Region object whose value is never inspected by the code under contract beyond being passed on (a name
+    used in a log or exception text): a value of the given Python type about which nothing is known."""
+
+    def __init__(self, pytype=str):
+        self.pytype = pytype
+
+
+class Elem(Spec):
+    """A parameter that is some object of a Region (any key), or None when optional."""
+
+    def __init__(self, region, optional=False):
+        self.region, self.optional = region, optional
+
+
 class SymDict(Spec):
     """dict of concrete size whose keys are symbolic scalars: SymDict((key spec, value spec), ...)."""
 
